@@ -204,38 +204,49 @@ def run(chk, facts_dir, tier):
     chk.floor("R17.2-masks", sum(masks.values()), 5)
 
     # ---------------- R17.4 bounds
-    for path in READERS[:2] + ("seglog::read::Reader::<H>::read_bytes",):
-        b = prog.body(path)
-        ev = Ev(prog, b)
-        reads = calls(b, "FileExt::read_exact_at", "FileExt::read_at", suffix=True) + calls(b, "seglog::read::ReadAheadBuf::read")
-        oob = [i for i, j, s in b.assigns() if s["rv"]["k"] == "agg" and s["rv"]["ak"].endswith("ReadError::OutOfBounds")]
-        cmps = [c for c in comparisons(prog, b, ev) if c["op"] in ("Gt", "Ge", "Lt", "Le") and
-                (has_call(c["a"], lambda n: n == "seglog::FlushedOffset::load") or has_call(c["b"], lambda n: n == "seglog::FlushedOffset::load")
-                 or any(isinstance(x, tuple) and x and x[0] == "param" and x[2] == "flushed_offset" for x in list(walk(c["a"])) + list(walk(c["b"]))))]
-        if not reads:
-            continue
-        bad = [t for bi, t in reads if not any(b.dominates(c["sw_block"], bi) for c in cmps)]
-        if bad:
-            # the bound for the first read may have been checked by the (only) caller before the call
-            callers = prog.callers().get(path, [])
-            caller_checked = bool(callers)
-            for cb_, cbi in callers:
-                cev2 = Ev(prog, cb_)
-                ccmps = [c for c in comparisons(prog, cb_, cev2) if c["op"] in ("Gt", "Ge", "Lt", "Le") and
-                         (has_call(c["a"], lambda n: n == "seglog::FlushedOffset::load") or has_call(c["b"], lambda n: n == "seglog::FlushedOffset::load"))]
-                if not any(cb_.dominates(c["sw_block"], cbi) for c in ccmps):
-                    caller_checked = False
-            if caller_checked:
-                bad = [t for t in bad if t is not reads[0][1]]
-        if bad or not oob:
-            chk.fail("R17.4", path, "unbounded-read", "a read of record bytes (L%s) is not preceded by a comparison with the flushed offset" % (bad[0]["line"] if bad else "?"), b, bad[0]["line"] if bad else None)
-        else:
-            chk.ok("R17.4", "%s: %d reads, each after a flushed-offset bound check" % (path.split("::")[-1], len(reads)), b.where())
+    bounds_checked(chk, prog, "R17.4", READERS[:2] + ("seglog::read::Reader::<H>::read_bytes",))
     # R5.4 (reopen clause) is shared with C05
     _marker_width(chk, prog)
     _header_fits(chk, prog)
     _buffer_slice_covered(chk, prog)
     return {}
+
+
+def _is_flushed_leaf(x):
+    return isinstance(x, tuple) and x and ((x[0] == "call" and x[1] == "seglog::FlushedOffset::load") or (x[0] == "param" and x[2] == "flushed_offset"))
+
+
+def _mentions_flushed(t):
+    return any(_is_flushed_leaf(x) for x in walk(t))
+
+
+def _monotone_in_flushed(t):
+    """is the term the flushed offset itself, or the flushed offset minus something (plain / checked / saturating), a cast or a min of such? Only
+    then does `end <= term` bound the read by the flushed offset; a symmetric or wrapping derivative (abs_diff, wrapping_sub) does not."""
+    t = strip(t)
+    if _is_flushed_leaf(t):
+        return True
+    if t[0] == "cast":
+        return _monotone_in_flushed(t[1])
+    if t[0] in ("field", "variant"):
+        return _monotone_in_flushed(t[1])
+    if t[0] == "bin" and t[1] in ("Sub", "SubWithOverflow", "SubUnchecked"):
+        return _monotone_in_flushed(t[2]) and not _mentions_flushed(t[3])
+    if t[0] == "bin" and t[1] in ("Add", "AddWithOverflow"):
+        return (_monotone_in_flushed(t[2]) and not _mentions_flushed(t[3])) or (_monotone_in_flushed(t[3]) and not _mentions_flushed(t[2]))
+    if t[0] == "call":
+        last = t[1].rsplit("::", 1)[-1]
+        if last in ("saturating_sub", "checked_sub") and len(t[2]) == 2:
+            return _monotone_in_flushed(t[2][0]) and not _mentions_flushed(t[2][1])
+        if last == "min" and len(t[2]) == 2:
+            return any(_monotone_in_flushed(a) for a in t[2])
+        if last in ("unwrap", "unwrap_or", "expect", "try_into", "into", "from", "try_from", "unwrap_or_default", "branch", "ok") and t[2]:
+            return _monotone_in_flushed(t[2][0])
+        return False
+    if t[0] == "phi":
+        alts = [a for a in t[1] if strip(a)[0] != "cycle"]
+        return bool(alts) and all(_monotone_in_flushed(a) or not _mentions_flushed(a) for a in alts) and any(_monotone_in_flushed(a) for a in alts)
+    return False
 
 
 def _slice_width(term):
@@ -437,3 +448,33 @@ def _buffer_slice_covered(chk, prog):
             chk.fail("R17.7", path, "buffer-slice-unbounded", "the payload is cut out of the optimistic buffer without a comparison of its end with the flushed offset or with the number of "
                      "bytes actually read: a record truncated inside its payload is completed from stale buffer contents and can be returned as valid", b, t["line"])
     chk.floor("R17.7", n, 1)
+
+
+def bounds_checked(chk, prog, rule, paths):
+    """every positional read in the given readers is dominated by a comparison of its end with (a value monotone in) the flushed offset (C17 R17.4, C18 R18.5)"""
+    for path in paths:
+        b = prog.body(path)
+        ev = Ev(prog, b)
+        reads = calls(b, "FileExt::read_exact_at", "FileExt::read_at", suffix=True) + calls(b, "seglog::read::ReadAheadBuf::read")
+        oob = [i for i, j, s in b.assigns() if s["rv"]["k"] == "agg" and s["rv"]["ak"].endswith("ReadError::OutOfBounds")]
+        cmps = [c for c in comparisons(prog, b, ev) if c["op"] in ("Gt", "Ge", "Lt", "Le") and
+                (_monotone_in_flushed(c["a"]) != _monotone_in_flushed(c["b"]))]
+        if not reads:
+            continue
+        bad = [t for bi, t in reads if not any(b.dominates(c["sw_block"], bi) for c in cmps)]
+        if bad:
+            # the bound for the first read may have been checked by the (only) caller before the call
+            callers = prog.callers().get(path, [])
+            caller_checked = bool(callers)
+            for cb_, cbi in callers:
+                cev2 = Ev(prog, cb_)
+                ccmps = [c for c in comparisons(prog, cb_, cev2) if c["op"] in ("Gt", "Ge", "Lt", "Le") and
+                         (has_call(c["a"], lambda n: n == "seglog::FlushedOffset::load") or has_call(c["b"], lambda n: n == "seglog::FlushedOffset::load"))]
+                if not any(cb_.dominates(c["sw_block"], cbi) for c in ccmps):
+                    caller_checked = False
+            if caller_checked:
+                bad = [t for t in bad if t is not reads[0][1]]
+        if bad or not oob:
+            chk.fail(rule, path, "unbounded-read", "a read of record bytes (L%s) is not preceded by a comparison with the flushed offset" % (bad[0]["line"] if bad else "?"), b, bad[0]["line"] if bad else None)
+        else:
+            chk.ok(rule, "%s: %d reads, each after a flushed-offset bound check" % (path.split("::")[-1], len(reads)), b.where())
